@@ -55,6 +55,9 @@ Write(r) ==
     \/ \E a \in Keys, b \in Keys, ret \in Rets :
          /\ a # b /\ RelsBetween(a, b) = {} /\ CreateRel(r, a, b, NextE, ret, P)
          /\ Log([op |-> "CreateRel", r |-> r, a |-> a, b |-> b, ret |-> ret, q |-> QCreateRel(a, b, ret)])
+    \/ \E a \in Keys, b \in Keys :
+         /\ a # b /\ RelsBetween(a, b) = {} /\ CreateRelAll(r, a, b, NextE, P)
+         /\ Log([op |-> "CreateRelAll", r |-> r, a |-> a, b |-> b, q |-> QCreateRelAll(a, b)])
     \/ \E a \in Keys, b \in Keys, v \in Vals, ret \in Rets :
          /\ RelsBetween(a, b) # {} /\ SetRelProp(r, a, b, v, ret, P)
          /\ Log([op |-> "SetRelProp", r |-> r, a |-> a, b |-> b, v |-> v, ret |-> ret, q |-> QSetRelProp(a, b, v, ret)])
